@@ -584,8 +584,9 @@ class ForEachTrace:
     """for-each fragment: `for x in xs: BODY` where BODY has no heap effect of its own and no break/continue/return;
     summarised as one event ForEach(xs, template) -- the for-each rule gives: BODY's events once per element, in order."""
 
-    def __init__(self, header=None, name="foreach", elem_facts=None, elem_type=None):
+    def __init__(self, header=None, name="foreach", elem_facts=None, elem_type=None, modifies=()):
         self.header, self.name, self.elem_facts, self.elem_type = header, name, elem_facts, elem_type
+        self.modifies = list(modifies)      # heap maps the body may change (through callee contracts); havocked after the loop
 
     def run_for(self, ex, s, st, d):
         import ast as _ast
@@ -608,21 +609,29 @@ class ForEachTrace:
             ex.bind_target(s.target, elem, sb.env)
             base = len(sb.pc); heap0 = dict(sb.heap)
             template = []
-            for s2, kind, val in ex.run(s.body, sb, d):
+            body_outs = ex.run(s.body, sb, d)
+            single = len([1 for _s, kk, _v in body_outs if kk == "fall"]) == 1
+            for s2, kind, val in body_outs:
                 if kind != "fall":
                     out.append((s2, kind, val)) if kind == "raise" else None
                     if kind != "raise":
                         raise Unsupported("for-each body leaves the loop")
                     continue
+                allowed = set()
+                for mk in self.modifies:
+                    allowed |= {mk, mk + "?"}
                 for k, v in s2.heap.items():
-                    if k != "alloc" and not (k in heap0 and heap0[k].eq(v)) and not k.startswith("g:"):
+                    untouched = (k in heap0 and heap0[k].eq(v)) or (k not in heap0 and z3.is_const(v) and v.decl().name() == "H0_" + k)
+                    if k != "alloc" and not untouched and not k.startswith("g:") and k not in allowed:
                         raise Unsupported(f"for-each body of `{self.name}` has a heap effect on {k}; use an invariant")
-                g = z3.And(*s2.pc[base:]) if len(s2.pc) > base else None
+                g = z3.And(*s2.pc[base:]) if (len(s2.pc) > base and not single) else None
                 for k_, g_, a_ in s2.trace:
                     gg = g if g_ is None else (z3.And(g, g_) if g is not None else g_)
                     template.append((k_, gg, a_))
             seq_term = it.term if it.term is not None else z3.IntVal(-1)
             s1.trace = s1.trace + [("ForEach", None, (seq_term, tuple(template)))]
+            if self.modifies:
+                havoc_with_frame(s1, self.modifies)
             # loop-carried locals assigned in the body are unknown afterwards
             for nme in assigned_names(s.body):
                 v = s1.env.get(nme)
@@ -664,3 +673,45 @@ class GuardedSingleton:
                 if feasible(sb.pc):
                     out.append((sb, "fall", None))
         return out
+
+
+# ----------------------------------------------------------------------------- verifying a block of a function (loop bodies under the for-each rule)
+def find_loops(fn, target_name=None, kind=None):
+    import ast as _ast
+    out = []
+    for n in loops_in_order(fn):
+        if kind and not isinstance(n, kind):
+            continue
+        if target_name and not (isinstance(n, _ast.For) and isinstance(n.target, _ast.Name) and n.target.id == target_name):
+            continue
+        out.append(n)
+    return out
+
+
+def run_block(qual, stmts, env, specs=None, loops=None, setup=None, assume=None, label=None, max_inline=5):
+    """symbolically execute a statement list taken from the real AST of `qual` in a symbolic environment.
+    Returns (executor, entry state, [(state, kind, value)] including raising paths)."""
+    src = get_src()
+    fn = src.funcs[qual][0]
+    cls = qual.split(".")[0] if "." in qual else None
+    ex = Executor(specs=dict(specs or {}), loops={}, max_inline=max_inline, current=qual)
+    if loops:
+        nodes = loops_in_order(fn)
+        for node, spec in loops:
+            node._pyvc_key = (qual, id(node))
+            ex.loops[(qual, id(node))] = spec
+    st = State(); st.labels = [label or qual]
+    st.env = dict(env)
+    for v in env.values():
+        if isinstance(v, V):
+            st.assume_alloc(v)
+    for f in (assume(st.peek()) if assume else []):
+        st.assume(f)
+    if setup:
+        setup(ex, st)
+    st0 = st.copy()
+    ex.fn_entry = st0
+    ex.fn_stack.append((fn.name, cls, fn))
+    outs = ex.run(stmts, st)
+    ex.fn_stack.pop()
+    return ex, st0, outs + ex.escaped, st.obl
